@@ -101,9 +101,26 @@ class DtdParser:
             name=attribute.name,
             type=DtdAttributeType(attribute.type),
             default=DtdAttributeDefault(attribute.default),
-            default_value=attribute.default_value,
+            default_value=cls.build_default_value(attribute.default_value),
             values=attribute.values(),
         )
+
+    @classmethod
+    def build_default_value(cls, value: str | None) -> str | None:
+        """Return the attribute default value as a document would present it.
+
+        libxml2 keeps an ampersand in the default value of an attribute
+        declaration as the character reference `&#38;`, e.g. `"R&amp;D"`
+        is reported as `R&#38;D`; it is expanded once more when the default
+        is applied to an element.
+
+        Args:
+            value: The lxml attribute default value
+
+        Returns:
+            The default value with the remaining references expanded.
+        """
+        return value.replace("&#38;", "&") if value else value
 
     @classmethod
     def build_ns_map(cls, prefix: str, attributes: list[DtdAttribute]) -> dict:
